@@ -17,6 +17,7 @@ import (
 	"unsafe"
 
 	"github.com/cenkalti/rain/v2/internal/logger"
+	"github.com/cenkalti/rain/v2/internal/piecepicker"
 	"github.com/cenkalti/rain/v2/zzverif/core"
 )
 
@@ -583,6 +584,9 @@ func TestC09(t *testing.T) {
 		"the randomised PickWebseed choice is enumerated by repetition until as many distinct outcomes were seen as an independent BEP 19 gap model predicts (<= 64 tries per expected outcome); every 61st choice is over-sampled to calibrate that model",
 		"bounds: <= 3 peer slots (a slot can be re-used by a new peer after a disconnect), <= 4 pieces, <= 2 sources, allowed-fast sets of <= 2 pieces; configurations above their state cap are explored breadth-first up to the cap only (listed in caps_hit)",
 		"reload-based successor computation is cross-checked: every 20011th new state and the first violation of every key are re-executed from a fresh picker through the exported API only and must give the identical state / the same violation",
+	}
+	if n := piecepicker.VerifUncopyableFields(); n > 0 {
+		core.HarnessError("C09: the picker has %d mutable field(s) of a kind the state dump cannot copy; extend hooks/internal/piecepicker", n)
 	}
 	if pf := os.Getenv("VERIF_C09_PROF"); pf != "" {
 		f, _ := os.Create(pf)
